@@ -213,6 +213,19 @@ func invariant(w *kmfx.World, now time.Time) string {
 	return ""
 }
 
+func manifestBytes(w *kmfx.World) int {
+	if w.Store == nil {
+		return 0
+	}
+	for _, n := range w.Store.Names(kmfx.Bucket) {
+		if strings.HasSuffix(n, "keyManifest.textproto") {
+			b, _ := w.Store.Get(kmfx.Bucket, n)
+			return len(b)
+		}
+	}
+	return 0
+}
+
 type prestate struct {
 	name string
 	w    *kmfx.World
@@ -224,6 +237,8 @@ func main() {
 	r.Rule(fmt.Sprintf("E4 over E1: each seam call of one rotation (key manager, signer, certificate authority, storage) is a choice point {ok, fault, crash-after}; all executions with at most %d deviation(s) per rotation, from the states 'after bootstrap' and 'after bootstrap+rotation', for memkm+memca, memkm+gcsca(in-memory storage with hooks), localkm+localca(on disk); non-trivial = distinct (combination, pre-state, deviation set) in which the rotation actually failed or crashed", bound))
 	r.Assume("key material of memkm lives in 'the key service' and survives a crash of the tool; gcsca/localca are reloaded from storage (their cache is not trusted)")
 	defer kmfx.Cleanup()
+	kmfx.PoolKMSKeys = true // the model service's key material comes from a pool (worlds are never compared with one another here)
+	kmfx.WarmKeyPool(kmfx.PoolSize)
 	t0 := fx.T0
 	tRot := t0.Add(24 * time.Hour)
 	tNow := t0.Add(72 * time.Hour)
@@ -248,10 +263,36 @@ func main() {
 			r.Violation(kind+"/fault-free-rotation-breaks-invariant", "setup "+kind, "after a fault-free rotation: "+msg, nil)
 			continue
 		}
+		states := []prestate{{"after-bootstrap", w}, {"after-bootstrap+rotate", w2}}
+		if kind == kmfx.GcpGcs {
+			// Scale: a store with a long history - hundreds of rotations, so that the manifest is about to
+			// pass 64 KiB with the rotation under test (the Cloud KMS names make it grow by ~170 bytes per
+			// key version). One long-lived set of objects builds it, as a rotation service would.
+			wl := w.Clone()
+			wl.OneProcess = true
+			size, delta, n := manifestBytes(wl), 0, 0
+			for size+delta <= 1<<16 && n < 1500 {
+				n++
+				if _, err := wl.Rotate(kmfx.RotateOpts{Now: t0.Add(time.Duration(n) * time.Minute)}, kmfx.Flags{}, nil); err != nil {
+					r.Violation(kind+"/fault-free-rotation-fails", "setup "+kind, fmt.Sprintf("fault-free rotation %d of a long history fails: %v", n, err), nil)
+					break
+				}
+				s2 := manifestBytes(wl)
+				size, delta = s2, s2-size
+			}
+			r.Set("long_history_rotations", n)
+			r.Set("long_history_manifest_bytes", size)
+			wl.Restart()
+			if msg := invariant(wl, tNow); msg != "" {
+				r.Violation(kind+"/fault-free-rotation-breaks-invariant", "setup "+kind, fmt.Sprintf("after %d fault-free rotations: %s", n, msg), nil)
+			} else {
+				states = append(states, prestate{"after-a-long-history(manifest-about-to-pass-64KiB)", wl})
+			}
+		}
 		pres = append(pres, struct {
 			kind string
 			ps   []prestate
-		}{kind, []prestate{{"after-bootstrap", w}, {"after-bootstrap+rotate", w2}}})
+		}{kind, states})
 	}
 	for _, kp := range pres {
 		for _, ps := range kp.ps {
